@@ -73,6 +73,17 @@ func (ex *Exec) freeVarNames(st *State, fr *Frame, names map[string]Value) map[s
 			}
 		}
 	}
+	// renamed captured variables: the recorded names denote the same binding positions
+	if base, ok := loadSignatureBaseline()[strings.ReplaceAll(fr.Fn.String(), modulePrefix+"/", "")]; ok && len(base.FreeVars) == len(fr.Fn.FreeVars) {
+		for i, old := range base.FreeVars {
+			if _, taken := names[old]; taken || i >= len(fr.Bind) {
+				continue
+			}
+			if p, ok := fr.Bind[i].(*PtrV); ok && p.Obj != nil {
+				names[old] = ex.load(st, p, nil)
+			}
+		}
+	}
 	return names
 }
 
